@@ -693,3 +693,34 @@ func EnumerateStackDefs(prefix string, minLen, maxLen int) []DefCase {
 	rec(nil)
 	return nameDefs(out, prefix)
 }
+
+// DeepRefDefs: properties (optional / required) holding two nested containers (array / map) of $ref'd
+// objects - five levels deep, enumerated explicitly because the general grammar stops at depth 2-3.
+func DeepRefDefs(prefix string) []DefCase {
+	byName := map[string]SchemaCtx{}
+	for _, c := range schemaContexts() {
+		byName[c.Name] = c
+	}
+	var leaf Leaf
+	for _, l := range reducedLeaves() {
+		if l.Kw == "string:minLength1" {
+			leaf = l
+		}
+	}
+	var out []DefCase
+	for _, prop := range []string{"optprop", "reqprop"} {
+		for _, c1 := range []string{"array", "map"} {
+			for _, c2 := range []string{"array", "map"} {
+				chain := []string{prop, c1, c2, "ref", "reqprop"}
+				b := &defBuilder{aux: map[string]J{}, name: "@@"}
+				s := cloneJ(leaf.Schema)
+				for i := len(chain) - 1; i >= 0; i-- {
+					s = byName[chain[i]].Wrap(s, b)
+				}
+				ch := strings.Join(chain, ">")
+				out = append(out, DefCase{Schema: s, Aux: b.aux, Desc: ch + ">" + leaf.Desc, Kw: leaf.Kw, Chain: ch})
+			}
+		}
+	}
+	return nameDefs(out, prefix)
+}
